@@ -116,8 +116,21 @@ def generate(rng, tier):
                 ops.append(op)
         sc["ops"] = ops
         scs.append(sc)
+    nmix = 250 if tier == "quick" else 4000
+    for _ in range(nmix):
+        # MachineMixin: the model creates its machine (default options, no listeners) and the events are
+        # the model's own methods
+        sc = enggen.gen_scenario(rng, dict(K, listeners=(0, 0), rtc_false=0.0, allow=0.0, start=0.0, p_construct=0.0,
+                                           falsy_machine=0.0, p_async=0.0, styles=("str", "list", "assign")))
+        sc["mixin"] = True
+        sc["allow"], sc["rtc"], sc["start"] = False, True, None
+        declared = {e for t in sc["trans"] for e in t["ev"]}
+        sc["ops"] = [(["call", rng.choice(["mixin", "mixin", "attr", "bound"]), op[1], op[2]]
+                      if (op[0] == "send" and op[1] in declared and rng.random() < 0.8) else op) for op in sc["ops"]]
+        scs.append(sc)
     parts = [("seeded random machines x histories whose events go through a random mix of the calling styles "
-              "send / event attribute / sm.events item / sm.allowed_events item / trigger bound onto another object", n)]
+              "send / event attribute / sm.events item / sm.allowed_events item / trigger bound onto another object", n),
+             ("machines created by a MachineMixin model, events called as the model's own methods", nmix)]
     npr = 40 if tier == "quick" else 400
     pr = []
     for _ in range(npr):
